@@ -7,6 +7,7 @@ on the scan position, so it is total by construction; the pinned loop is modelle
 below and proved to diverge — that was defect F2.
 -/
 import Gkv.Proofs.Scan
+import Gkv.Proofs.MachineR
 open Std
 
 namespace Gkv.Props.C08
@@ -90,5 +91,47 @@ theorem pinned_loop_diverges (magic valid : Int → Bool) (L : Int) (hL : 0 ≤ 
     have h0 : ¬ ((0:Int) > L ∧ valid 0 = true) := by omega
     simp only [h0, ↓reduceIte]
     exact ih _ (by omega)
+
+/-! ### history form (store-level machine with FlushRevert, `Gkv/Model/MachineR.lean`) -/
+
+open Gkv.Machine Gkv.MachineR in
+/-- for EVERY history of collection operations, Set/Delete, Flush, re-open and FlushRevert — any
+    number of flushes, consecutive reverts, reverting past the first flush, new flushes after a
+    revert — the store shows exactly what the specification shows, where the specification keeps
+    the STACK of completed flushes: Flush pushes, FlushRevert pops and makes the new top (or the
+    empty store) current.  Side conditions `RHistOK`: those of C02 plus, at the moment of each
+    revert, no key/value bytes forge a complete self-consistent root record (the property's own
+    exclusion). -/
+theorem history_refinement (cmpOf : Bytes → CmpKind) (ops : List ROp) (h : RHistOK cmpOf ops) :
+    absS (rrun cmpOf ops) = (rspecRun cmpOf ops).cur := rrefinement cmpOf ops h
+
+open Gkv.Machine Gkv.MachineR in
+/-- repeated reverts walk back one Flush at a time, to the empty store past the first one -/
+theorem reverts_walk_back (cmpOf : Bytes → CmpKind) (ops : List ROp) (n : Nat) (hn : 0 < n)
+    (h : RHistOK cmpOf (ops ++ List.replicate n .revert)) :
+    absS (rrun cmpOf (ops ++ List.replicate n .revert))
+      = ((rspecRun cmpOf ops).flushed.drop n).headD [] :=
+  reverts_walk_back_partial cmpOf ops n hn h
+
+open Gkv.Machine Gkv.MachineR in
+/-- after any such history the file is truncated to end exactly at the root record of the flush on
+    top of the stack (or is empty), and re-opening it shows that flush -/
+theorem file_agrees_after_history (cmpOf : Bytes → CmpKind) (ops : List ROp) (h : RHistOK cmpOf ops) :
+    (∃ dc, openStore 0 (rrun cmpOf ops).file cmpOf
+        = .ok ⟨some 0, (rrun cmpOf ops).file.length, dc, false⟩ ∧
+      absColls dc = (rspecRun cmpOf ops).flushed.headD []) ∧
+    (rrun cmpOf ops).size = (rrun cmpOf ops).file.length ∧
+    (match flushEnds cmpOf ops with
+      | [] => (rrun cmpOf ops).file = []
+      | e :: _ => e = (rrun cmpOf ops).file.length) :=
+  ⟨r_reopen_shows_top cmpOf ops h, (file_ends_at_top_flush cmpOf ops h).2.2.2.1,
+   (file_ends_at_top_flush cmpOf ops h).2.2.2.2⟩
+
+-- non-vacuity (evaluated): three flushes, two reverts, a new flush, re-open
+#guard Gkv.Machine.absS (Gkv.MachineR.rrun (fun _ => .bytes)
+    [.base (.setColl [97]), .base (.set [97] ⟨[1], [1], 1⟩), .base .flush,
+     .base (.set [97] ⟨[2], [2], 2⟩), .base .flush, .base (.set [97] ⟨[3], [3], 3⟩), .base .flush,
+     .revert, .revert, .base (.set [97] ⟨[4], [4], 4⟩), .base .flush, .base (.del [97] [4]), .base .reopen])
+  == [([97], [⟨[1], [1], 1⟩, ⟨[4], [4], 4⟩])]
 
 end Gkv.Props.C08
